@@ -711,36 +711,48 @@ class Exec:
             return self.expr(e["else"], frame)
         return UNIT
 
+    def match_pat(self, p, v, frame, ln):
+        """Does value v match pattern p on this path?  Binds identifiers into frame.  Symbolic tests go through decide()."""
+        k = p["k"]
+        if k == "pwild":
+            return True
+        if k == "pref":
+            return self.match_pat(p["pat"], v, frame, ln)
+        if k in ("ppath", "pident") and p.get("path", [p.get("name")])[-1] == "None" and isinstance(v, Opt):
+            return not v.some
+        if k == "pident":
+            self.bind(frame, p, v)
+            return True
+        if k == "ptuplestruct" and p["path"][-1] == "Some" and isinstance(v, Opt) and len(p["elems"]) == 1:
+            return v.some and self.match_pat(p["elems"][0], v.v, frame, ln)
+        if k == "ptuple" and isinstance(v, tuple) and len(v) == len(p["elems"]):
+            for q, w in zip(p["elems"], v):
+                if not self.match_pat(q, w, frame, ln):
+                    return False
+            return True
+        if k == "plit":
+            lv = self.e_lit(p["lit"], frame)
+            if isinstance(v, B) and isinstance(lv, B):
+                t = self.decide(v, ln)
+                return t if lv is TRUE or lv == TRUE else not t
+            if isinstance(v, T) and isinstance(lv, T):
+                return self.decide(v.eq(lv), ln)
+        raise Unsupported("match pattern %s at line %s" % (k, ln))
+
     def e_match(self, e, frame):
         v = self.expr(e["e"], frame)
-        if isinstance(v, Opt):
-            for arm in e["arms"]:
-                p = arm["pat"]
-                if arm["guard"] is not None:
-                    raise Unsupported("match guard")
-                if p["k"] == "pwild":
-                    return self.expr(arm["body"], frame)
-                if p["k"] == "ptuplestruct" and p["path"][-1] == "Some" and v.some:
-                    self.bind(frame, p["elems"][0], v.v)
-                    return self.expr(arm["body"], frame)
-                if p["k"] in ("ppath", "pident") and (p.get("path", [p.get("name")])[-1] == "None") and not v.some:
-                    return self.expr(arm["body"], frame)
-            raise Unsupported("non-exhaustive match on Option at line %s" % e.get("ln"))
-        if not isinstance(v, T):
-            raise Unsupported("match on non-integer at line %s" % e.get("ln"))
+        ln = e.get("ln")
+        if not isinstance(v, (T, B, Opt, tuple)):
+            raise Unsupported("match on unsupported scrutinee at line %s" % ln)
         for arm in e["arms"]:
-            if arm["guard"] is not None:
-                raise Unsupported("match guard")
-            p = arm["pat"]
-            if p["k"] == "pwild":
-                return self.expr(arm["body"], frame)
-            if p["k"] == "plit":
-                lv = self.e_lit(p["lit"], frame)
-                if self.decide(v.eq(lv), e.get("ln")):
-                    return self.expr(arm["body"], frame)
+            if not self.match_pat(arm["pat"], v, frame, ln):
                 continue
-            raise Unsupported("match pattern %s" % p["k"])
-        raise Unsupported("non-exhaustive match")
+            if arm["guard"] is not None:
+                g = self.expr(arm["guard"], frame)
+                if not self.truth(g, ln):
+                    continue
+            return self.expr(arm["body"], frame)
+        raise Unsupported("non-exhaustive match at line %s" % ln)
 
     def e_for(self, e, frame):
         it = self.expr(e["iter"], frame)
@@ -885,6 +897,8 @@ class Exec:
         args = [self.expr(a, frame) for a in e["args"]]
         name = segs[-1]
         if len(segs) == 1:
+            if isinstance(frame.get(name), Closure):       # `let f = |a, b| ..; f(x, y)`
+                return self.call_closure(frame[name], args)
             if name == "Some":
                 return Opt(args[0], True)
             if name == "pow":
